@@ -12,7 +12,9 @@ total_cost, latch, point_depths), the returned flag and the evaluations recorded
   (a design that left S never returns, sample_count / total_cost equal the recorded totals);
 * (F) compared with the trajectory of the Lean state machine `Run.step` replayed on the recorded
   environment of every round (`C06 run …`): oracle answers, acquisition picks, Auer's centres and
-  width rows, VOGP_AD's refinement test.
+  per-design width rows, VOGP_AD's refinement test; the number of evaluations of a call must equal the
+  model's `cap` = `batch_size` clamped to what the active set offers (`min(batch, |active|)`,
+  decoupled: `min(batch, m·|active|)`).
 
 Stream A ("table"): the three geometry predicates are replaced in the algorithm module by
 per-round Boolean tables (`stubs.TableOracle`, slack and argument order checked).  Stream B
@@ -21,8 +23,9 @@ every `update()`, real `EmpiricalMeanVarModel` (PaVeBa, Auer), real fixed-hyper-
 answers the algorithm received are recorded and handed to the model.
 
 Every Python exception in a constructor or in `run_one_step()` is an (R) violation
-`crash:<ExcType>@<file>:<func>:<alg>`; two suspected crashes have their own keys:
-`crash:batch-exceeds-active` (DESIGN §5 D7) and `crash:rect-slack-length-N-ne-m` (D6).
+`crash:<ExcType>@<file>:<func>:<alg>[:constructor]`; two crashes suspected in DESIGN §5 have their own
+keys: `crash:batch-exceeds-active` (D7, repaired in /repo: regression key) and
+`crash:rect-slack-length-N-ne-m` (D6).  A call that does not return within `STEP_SECONDS` is `hang:<alg>`.
 """
 from __future__ import annotations
 
@@ -355,7 +358,7 @@ def crash_key(e, case, exceeds_flag):
 
 def parse_step(s):
     f = s.split(":")
-    if len(f) != 13:
+    if len(f) != 14:
         raise RuntimeError(f"unexpected trajectory entry {s!r}")
     reqs = []
     if f[10] != "_":
@@ -365,7 +368,7 @@ def parse_step(s):
     return {"S": core.parse_nats(f[0]), "P": core.parse_nats(f[1]), "U": core.parse_nats(f[2]), "round": int(f[3]),
             "sc": int(f[4]), "cost": Fraction(f[5]), "latch": f[6] == "1", "depths": core.parse_nats(f[7]),
             "parent": core.parse_nats(f[8]), "done": f[9] == "1", "req": reqs,
-            "refined": None if f[11] == "-" else int(f[11]), "exceeds": f[12] == "1"}
+            "refined": None if f[11] == "-" else int(f[11]), "exceeds": f[12] == "1", "cap": int(f[13])}
 
 
 def auer_margin(alg, S_pre, centres, rows):
@@ -827,6 +830,9 @@ def _run(ctx, case, name, kind):
                 diffs.append("req")
         elif st["req"] != mo["req"]:
             diffs.append("req")
+        if name != "VOGP_AD" and len(st["req"]) != mo["cap"]:
+            # a batch is `batch_size` evaluations clamped to what the active set offers — no fewer
+            diffs.append("batch-count")
         if mo["exceeds"]:
             ctx.count("batch_exceeds_active_calls")
             if st["req"] == mo["req"]:
